@@ -544,6 +544,16 @@ func (ev *Evaluator) instr(env map[ssa.Value]Val, in ssa.Value) (Val, error) {
 		if err != nil {
 			return nil, err
 		}
+		if cs, ok := x.(Const); ok && cs.V != nil && cs.V.Kind() == constant.String {
+			if c, ok := idx.(Const); ok && c.V != nil {
+				str := constant.StringVal(cs.V)
+				i, _ := constant.Int64Val(c.V)
+				if i < 0 || i >= int64(len(str)) {
+					return nil, &Undecided{in.Pos(), "index out of range on constant string"}
+				}
+				return Ptr{Cell: ev.newCell("strbyte", Const{constant.MakeInt64(int64(str[i]))})}, nil
+			}
+		}
 		if sv, ok := x.(*SliceV); ok {
 			if c, ok := idx.(Const); ok {
 				i, _ := constant.Int64Val(c.V)
@@ -682,6 +692,9 @@ func (ev *Evaluator) call(env map[ssa.Value]Val, in *ssa.Call) (Val, error) {
 		if callee.Name() == "len" {
 			if sv, ok := args[0].(*SliceV); ok {
 				return Const{constant.MakeInt64(int64(len(sv.Elems)))}, nil
+			}
+			if c, ok := args[0].(Const); ok && c.V != nil && c.V.Kind() == constant.String {
+				return Const{constant.MakeInt64(int64(len(constant.StringVal(c.V))))}, nil
 			}
 			return Term{Fn: "len", Args: args}, nil
 		}
